@@ -270,9 +270,12 @@ class P(Property):
     driver_ml = 'C02_driver.ml'
     harness_bin = 'c02'
     rule = ('fs: every byte string of total length <= 5 (quick) / <= 7 (thorough) made of complete or truncated frames over '
-            'the alphabet {all known types, the 4 HTTP/2-reserved types, unknown types, WebTransport header; 1/2(/4/8)-byte '
-            'forms of type and length; payload lengths 0..k with bytes from {00,04,40(,80)}} x every composition into '
-            'chunks x {FIN, RESET, open} x {all arrivals then polls, polls after every arrival}; plus seeded random long '
+            'the alphabet {all known types, the 4 HTTP/2-reserved types, unknown types, WebTransport header; 1/2(/4)-byte '
+            'forms of type and length; payload lengths 0..k; field payloads over {04,40(,00,80)}, SETTINGS payloads over '
+            '{01,40,04(,21)}, opaque payloads that look like frame headers; at most one frame per string from the full '
+            'alphabet, the others from {DATA, HEADERS, GOAWAY, unknown}} x every composition into chunks (length <= 5; a '
+            'seeded 8 of 32 for length 6 and 3 of 64 for length 7) x {FIN, RESET, open} x {all arrivals then polls, polls '
+            'after every arrival}; plus seeded random long '
             'streams (realistic frames, mutated lengths/payloads, truncations) with random chunkings and random '
             'interleavings of arrivals and calls, some with out-of-contract poll_next/poll_data calls; fd: Frame::decode '
             'on every alphabet string and on random ones; fe: the error-code table. non-trivial = distinct cases whose '
@@ -288,15 +291,19 @@ class P(Property):
             out.append('fd ' + s.hex())
             n = len(s)
             comps = list(compositions(n))
-            if tier != 'quick' and n == 7:
-                # all compositions of the 7-byte strings would be 64 each: keep all for a sample, 12 seeded ones otherwise
-                if rng.random() > 0.1:
-                    comps = rng.sample(comps, 12)
+            endings = ENDINGS
+            if n == 6:
+                comps = rng.sample(comps, 8)       # thorough only: 8 of the 32 chunkings, seeded
+            elif n == 7:
+                comps = rng.sample(comps, 3)       # 3 of the 64, each with one seeded ending
             for parts in comps:
                 ch = chunks_of(s, parts)
-                for e in ENDINGS:
+                if n == 7:
+                    endings = (rng.choice(ENDINGS),)
+                for e in endings:
                     out.append(batch(ch, e, n + 3))
-                    if len(ch) > 1:
+                    # polls after every arrival: for the longest strings of the quick tier only with FIN
+                    if len(ch) > 1 and (tier != 'quick' or n < 5 or e == 'F'):
                         out.append(incremental(ch, e, 1))
         for _ in range(4000 if tier == 'quick' else 60000):
             s = rand_stream(rng)
